@@ -226,6 +226,15 @@ func mutationCases(dec string, si int, seed []byte, thorough bool) []c11case {
 			}
 		}
 		out = append(out, c11case{Dec: dec, Seed: si, Op: "del", At: at}, c11case{Dec: dec, Seed: si, Op: "dup", At: at})
+		if b >= 'A' && b <= 'Z' || b >= 'a' && b <= 'z' || b == '*' || b == '=' {
+			// a byte that may be a type or operation letter: every letter the formats give a meaning to
+			for _, v := range []byte("AcCsSiIfZHBdMN*=") {
+				if !seen[v] {
+					seen[v] = true
+					out = append(out, c11case{Dec: dec, Seed: si, Op: "byte", At: at, Val: int64(v)})
+				}
+			}
+		}
 		rest := int64(len(seed) - at)
 		if at+2 <= len(seed) {
 			for _, v := range []int64{0, 1, 2, 3, 0xffff, 0x7fff, 0x8000, rest - 1, rest + 1} {
@@ -525,7 +534,7 @@ func c11one(c *Ctx, cas c11case) {
 }
 
 func c11(c *Ctx) {
-	c.Rule = "decoders: bgzf.NewReader/Read/Seek/HasEOF, bam.NewReader/Read under the three Omit modes (mutations applied to the uncompressed BAM stream, re-wrapped in valid BGZF), Header.UnmarshalBinary, Header.UnmarshalText/NewHeader, Record.UnmarshalSAM/UnmarshalText, sam.Reader, ParseAux, ParseCigar, bam.ReadIndex, tabix.ReadFrom, csi.ReadFrom, fai.ReadFrom, fai.NewIndex, cram Reader/Container/Block.Value. Inputs: every single-site mutation of every seed (truncate at every length; each byte -> {0,1,0x7f,0x80,0xff,b+1,b-1}; every 16- and 32-bit little-endian field position -> {0,1,2,3,-1,max,min,len-1,len+1,65536}; delete / duplicate each byte), every string of length <= 5 (thorough 7) over each text format's punctuation alphabet (aux 'X:Bc,1-Z', cigar '19MB*=', header '@HDSQ\\t:VN1'), digit runs of every length 1..24 in every numeric position of the text formats, and CRAM files assembled from parameter products with valid checksums. Every value returned without error goes to the library's own consumers (String/MarshalSAM/End/Bin/Len, Cigar methods, Aux.Value/String, Header.Marshal*/Clone, bam.Writer.Write, Index.Add, Chunks/ReferenceStats/WriteIndex, fai File reads). Oracle: returns within 60 s, no panic, no fatal error; inputs that exhaust the 768 MiB worker memory limit are counted, not judged. Non-trivial: every mutated input (all differ from the seed)."
+	c.Rule = "decoders: bgzf.NewReader/Read/Seek/HasEOF, bam.NewReader/Read under the three Omit modes (mutations applied to the uncompressed BAM stream, re-wrapped in valid BGZF), Header.UnmarshalBinary, Header.UnmarshalText/NewHeader, Record.UnmarshalSAM/UnmarshalText, sam.Reader, ParseAux, ParseCigar, bam.ReadIndex, tabix.ReadFrom, csi.ReadFrom, fai.ReadFrom, fai.NewIndex, cram Reader/Container/Block.Value. Inputs: every single-site mutation of every seed (truncate at every length; each byte -> {0,1,0x7f,0x80,0xff,b+1,b-1}; every 16- and 32-bit little-endian field position -> {0,1,2,3,-1,max,min,len-1,len+1,65536}; delete / duplicate each byte; every byte that is a letter, '*' or '=' -> every type/operation letter of the formats), values of 18 length classes (0..65536, around 16, 32, 256 and 4096) x 4 fill characters in every tagged field of the header lines, in aux values of every type and in every column of a SAM line, every string of length <= 5 (thorough 7) over each text format's punctuation alphabet (aux 'X:Bc,1-Z', cigar '19MB*=', header '@HDSQ\\t:VN1'), digit runs of every length 1..24 in every numeric position of the text formats, and CRAM files assembled from parameter products with valid checksums. Every value returned without error goes to the library's own consumers (String/MarshalSAM/End/Bin/Len, Cigar methods, Aux.Value/String, Header.Marshal*/Clone, bam.Writer.Write, Index.Add, Chunks/ReferenceStats/WriteIndex, fai File reads). Oracle: returns within 60 s, no panic, no fatal error; inputs that exhaust the 768 MiB worker memory limit are counted, not judged. Non-trivial: every mutated input (all differ from the seed)."
 	if c.Replay != nil {
 		var cas c11case
 		if err := json.Unmarshal(c.Replay, &cas); err != nil {
@@ -550,6 +559,39 @@ func c11(c *Ctx) {
 	cases = append(cases, textCases("cigar", "19MB*=", tl)...)
 	cases = append(cases, textCases("samhdr", "@HDSQ\t:VN1", tl-1)...)
 	cases = append(cases, textCases("samrec", "r\t*0=", tl-1)...)
+	// values of every length class in every tagged field of the text formats (fixed-size
+	// destinations such as the 16-byte MD5, line buffers, 8/16-bit counts)
+	for _, l := range []int{0, 1, 2, 15, 16, 17, 31, 32, 33, 34, 64, 255, 256, 257, 4095, 4096, 4097, 65536} {
+		for _, ch := range []string{"0", "a", "/", " "} {
+			v := strings.Repeat(ch, l)
+			for _, tag := range []string{"M5", "AS", "SP", "UR", "AH", "XX", "LN", "SN"} {
+				cases = append(cases, c11case{Dec: "samhdr", Op: "text", Text: "@SQ\tSN:a\tLN:10\t" + tag + ":" + v})
+			}
+			for _, tag := range []string{"DT", "PI", "FO", "KS", "PL", "PU", "LB", "SM", "CN", "DS", "PG", "XX", "ID"} {
+				cases = append(cases, c11case{Dec: "samhdr", Op: "text", Text: "@RG\tID:a\t" + tag + ":" + v})
+			}
+			for _, tag := range []string{"PN", "CL", "PP", "VN", "XX", "ID"} {
+				cases = append(cases, c11case{Dec: "samhdr", Op: "text", Text: "@PG\tID:p\t" + tag + ":" + v})
+			}
+			for _, tag := range []string{"VN", "SO", "GO", "XX"} {
+				cases = append(cases, c11case{Dec: "samhdr", Op: "text", Text: "@HD\t" + tag + ":" + v})
+			}
+			cases = append(cases, c11case{Dec: "samhdr", Op: "text", Text: "@CO\t" + v})
+			for _, typ := range []string{"Z", "H", "A", "i", "f", "B:c,", "B:f,", "B:H,"} {
+				sep := ":"
+				if strings.HasPrefix(typ, "B") {
+					sep = ""
+				}
+				cases = append(cases, c11case{Dec: "aux", Op: "text", Text: "XY:" + typ + sep + v})
+			}
+			f := strings.Split(samSeedLines[0], "\t")
+			for fi := range f {
+				g := append([]string(nil), f...)
+				g[fi] = v
+				cases = append(cases, c11case{Dec: "samrec", Op: "text", Text: strings.Join(g, "\t")})
+			}
+		}
+	}
 	// digit runs of every length 1..24 in every numeric position of the text formats
 	for k := 1; k <= 24; k++ {
 		for _, d := range []string{"9", "1", "0"} {
